@@ -236,3 +236,37 @@ def F4(inp, N, obs=0, ro=False):
     if exc is None:
         cl['has_quorum_iff_majority_of_voters_connected'] = got[0] is want and got[1] is want
     return Res(cl, nontrivial=True, obs=lambda: dict(N=N, ro=ro, connected_voters=nconn, connected=sorted(x.id for x in cn), got=show(got), want=want))
+
+
+@obligation('O3', props=('C18', 'C05'), quick=[dict(n=2), dict(n=3)], stubs=_STUBS,
+            bounds='leader with 1 voter and 2 observers (connected or not), n<=3 entries, any nextIndex per peer')
+def O3(inp, n):
+    """observers are served like voters: one __sendAppendEntries call sends to every connected peer - voter or observer - the
+    entries from its own nextIndex to the log end (or a heartbeat), and nothing to disconnected peers; observer connect /
+    disconnect creates / removes exactly that observer's table entries."""
+    o, tr, now = _mk(inp, 2)
+    p = so.sym_state(inp, o, now, n, role=L, term_hi=T_HI, base_hi=1, observers=['r0', 'r1'])
+    for k, v in p.next.items():
+        inp.assume(v >= 2)
+    _, exc = guard(getattr(o, P + 'sendAppendEntries'))
+    cl = {'no_exception': exc is None}
+    for x in p.others + p.observers:
+        msgs = [m for nd, m in tr.sent if nd == x]
+        if not p.conn[x.id]:
+            cl['nothing_to_disconnected_%s' % x.id] = len(msgs) == 0
+            continue
+        covered = [e[1] for m in msgs for e in m.get('entries', [])]
+        want = [p.next[x.id] + d for d in range(len(covered))]
+        cl['served_%s' % x.id] = And(len(msgs) >= 1, And([Eq(c_, w) for c_, w in zip(covered, want)] or [True]), Eq(p.next[x.id] + len(covered), p.last + 1))
+    # observer joins / leaves
+    r2 = Node('r2')
+    keys0 = set(k.id for k in get(o, 'raftNextIndex'))
+    _, e1 = guard(getattr(o, P + 'onReadonlyNodeConnected'), r2)
+    q1 = so.post_state(o)
+    cl['observer_join_adds_only_its_entries'] = e1 is None and set(q1.next) == keys0 | {'r2'} and set(q1.match) == keys0 | {'r2'} and \
+        bool(Eq(q1.next['r2'], p.last + 1)) and bool(Eq(q1.match['r2'], 0)) and r2 in o.readonlyNodes and o.isNodeConnected(r2)
+    _, e2 = guard(getattr(o, P + 'onReadonlyNodeDisconnected'), r2)
+    q2 = so.post_state(o)
+    cl['observer_leave_removes_only_its_entries'] = e2 is None and set(q2.next) == keys0 and set(q2.match) == keys0 and r2 not in o.readonlyNodes and not o.isNodeConnected(r2)
+    cl['voter_set_untouched'] = set(x.id for x in o.otherNodes) == set(x.id for x in p.others)
+    return Res(cl, nontrivial=any(p.conn[x.id] for x in p.observers), obs=lambda: dict(conn=p.conn, sent=[(nd.id, len(m.get('entries', []))) for nd, m in tr.sent], exc=show(exc)))
